@@ -611,7 +611,15 @@ class JokerSamples:
     def ln_unmarginalized_likelihood(self, data):
         """
         Compute the log (unmarginalized) likelihood of the data for each sample
+
+        ``data`` is what the sampler accepts: an `RVData` instance or, for
+        samples that carry ``v0`` offsets, the same list / dict of `RVData`
+        instances (one per survey) the samples were generated with.
         """
+        from .data_helpers import validate_prepare_data
+
+        # The merged data and the survey indicator columns the sampler uses:
+        data, _, trend_M = validate_prepare_data(data, self.poly_trend, self.n_offsets)
 
         data_rv = data.rv.value
         data_unit = data.rv.unit
@@ -622,11 +630,16 @@ class JokerSamples:
         else:
             s_vars = np.zeros(len(self))
 
+        offsets = [
+            self[f"dv0_{k}"].to_value(data_unit) for k in range(1, self.n_offsets + 1)
+        ]
+
         lls = np.full(len(self), np.nan)
         for i, (orbit, s) in enumerate(zip(self.orbits, s_vars)):
-            model_rv = orbit.radial_velocity(data.t)
-            lls[i] = ln_normal(
-                model_rv.to_value(data_unit), data_rv, data_var + s
-            ).sum()
+            model_rv = orbit.radial_velocity(data.t).to_value(data_unit)
+            for k, dv0 in enumerate(offsets):
+                # every epoch of survey k+1 is shifted by that survey's offset
+                model_rv = model_rv + trend_M[:, 1 + k] * dv0[i]
+            lls[i] = ln_normal(model_rv, data_rv, data_var + s).sum()
 
         return lls
